@@ -119,6 +119,12 @@ def run(ctx):
     rng = ctx.rng("c03")
     clean, lane2 = profile(False), profile(True)
     maxd = ctx.pick(4, 6)
+    for fname in sorted(SQLA_FUNCS):
+        if ctx.mine(sorted(SQLA_FUNCS).index(fname)):
+            for style in STYLES:
+                SC.judge(ctx, scalar.simple_filter_for(rng, lane2, fname), rng, make_select(style, lambda x: x),
+                         findings.sqla_semantic_triggers, "coverage:" + style, cap=150, profile=lane2)
+                ctx.cls("style:" + style)
     for i in range(ctx.pick(500, 20000)):
         if ctx.out_of_time():
             break
